@@ -63,7 +63,6 @@ def _rules():
         ],
         "export": [
             lambda R, c, rid: c06.rule_b(R, c, rid),
-            lambda R, c, rid: c06.rule_e(R, c, rid),
             lambda R, c, rid: c06.rule_f(R, c, rid),
         ],
         "map-api": [
@@ -85,6 +84,10 @@ def _rules():
             lambda R, c, rid: c03.rule_g(R, c, rid),
             lambda R, c, rid: c03.rule_h(R, c, rid),
         ],
+        "state-vector": [
+            lambda R, c, rid: c06.rule_e(R, c, rid),
+            lambda R, c, rid: shared.known_state(R, c, rid),
+        ],
         "flags": [
             lambda R, c, rid: preds.rule(R, c, rid, ["flags_check"]),
             lambda R, c, rid: preds.flag_table(R, c, rid),
@@ -94,22 +97,22 @@ def _rules():
 
 # property -> mechanisms it depends on *in addition to* the clauses its own module already runs
 DEPENDS = {
-    "C01": ["squash", "splice", "partial", "flags", "stash-deletes", "lookup", "content", "export", "liveness", "block-wire", "merge"],
-    "C02": ["stash-deletes", "lookup", "export", "block-wire", "merge"],
+    "C01": ["squash", "splice", "partial", "flags", "stash-deletes", "lookup", "content", "export", "liveness", "block-wire", "merge", "state-vector"],
+    "C02": ["stash-deletes", "lookup", "export", "block-wire", "merge", "state-vector"],
     "C03": ["splice", "conflict", "lookup", "content", "map-api"],
     "C04": ["splice", "dependency", "stash-deletes", "lookup", "content", "block-iter"],
     "C05": ["conflict", "squash", "splice", "dependency", "map-api", "merge"],
-    "C06": ["dependency", "delete-set", "slice", "partial", "lookup", "content", "merge"],
-    "C07": ["delete-set", "slice", "partial", "export", "liveness", "block-wire"],
+    "C06": ["dependency", "delete-set", "slice", "partial", "lookup", "content", "merge", "state-vector"],
+    "C07": ["delete-set", "slice", "partial", "export", "liveness", "block-wire", "state-vector"],
     "C08": ["slice", "delete-set", "partial", "block-wire"],
     "C09": ["slice", "partial", "content"],
     "C12": ["splice", "squash", "lookup"],
-    "C13": ["splice", "delete-set", "lookup", "content", "export", "liveness"],
+    "C13": ["splice", "delete-set", "lookup", "content", "export", "liveness", "state-vector"],
     "C14": ["splice", "liveness", "lookup", "redone", "block-iter"],
     "C15": ["squash", "splice", "content", "block-wire"],
     "C16": ["delete-set"],
     "C17": ["flags", "content", "map-api", "block-iter"],
-    "C18": ["dependency", "stash-deletes", "partial", "export", "block-wire", "merge"],
+    "C18": ["dependency", "stash-deletes", "partial", "export", "block-wire", "merge", "state-vector"],
     "C20": ["dependency", "splice", "squash", "lookup"],
 }
 
